@@ -528,4 +528,156 @@ theorem licm_div_hoist_counterexample :
 example : (licm [.bin 2 .mul (.var 1) (.lit 3), .bin 3 .add (.var 0) (.var 2), .bin 4 .div (.var 1) (.var 1)] [0]).1
     = [.bin 2 .mul (.var 1) (.lit 3)] := by decide
 
+/-! ## 9. Local value numbering rewrites every consuming position (incl. `Break`)
+
+`lvnSimple_preserves` (in `Lemmas/OptKernel.lean`, audited below) is the general statement for
+arbitrary contexts; the theorems here are its whole-block and loop-body forms. -/
+
+/-- corollary for a whole block started with empty contexts (what `optimize_function` does): same
+prints; trap iff trap; break with the same value; or both fall through with every name of the
+original readable in the optimised environment through the final renaming. -/
+theorem lvn_preserves (p : List Simple) (seen : List Nat) (ρ : Nat → Int) (hwf : wfSimple p seen = true) :
+    (execSimple p ρ).1 = (execSimple (lvnSimple p { ren := [], avail := [] }).1 ρ).1 ∧
+    (match (execSimple p ρ).2, (execSimple (lvnSimple p { ren := [], avail := [] }).1 ρ).2 with
+     | .trap, .trap => True
+     | .brk v, .brk w => v = w
+     | .next ρ1, .next ρ2 =>
+        ∀ x, x ∈ seenAfter p seen → ρ1 x = ρ2 (rn (lvnSimple p { ren := [], avail := [] }).2.ren x)
+     | _, _ => False) := by
+  have := lvnSimple_preserves p seen _ ρ ρ hwf (inv_empty seen ρ)
+  refine ⟨this.1, ?_⟩
+  have h2 := this.2
+  revert h2
+  cases (execSimple p ρ).2 <;> cases (execSimple (lvnSimple p { ren := [], avail := [] }).1 ρ).2 <;>
+    simp only [ResRel] <;> intro h2
+  all_goals first | exact h2 | exact h2.rel | trivial
+
+/-- The dropped consuming position of the seeded fault class: if `Break` were not rewritten, the
+block `t1 = e; t2 = e; break t2` would break with the never-assigned `t2`. -/
+theorem lvn_break_must_be_renamed :
+    (lvnSimple [.bin 2 .mul (.var 0) (.var 0), .bin 3 .mul (.var 0) (.var 0), .brk (.var 3)] { ren := [], avail := [] }).1
+      = [.bin 2 .mul (.var 0) (.var 0), .brk (.var 2)] ∧
+    (execSimple [.bin 2 .mul (.var 0) (.var 0), .brk (.var 3)] (fun v => if v = 0 then 5 else 0)).2 matches .brk 0 := by
+  decide
+/-- FULL STRENGTH, loop bodies: blocks of statements and `SingleIf`s with statement bodies (any
+`Break` inside them included): same prints, same way of ending (trap / break with the same value /
+fall through). -/
+theorem lvnL_preserves (p : List LStmt) (seen : List Nat) (cx : Cx) (ρ1 ρ2 : Nat → Int)
+    (hwf : wfL p seen = true) (h : Inv seen cx ρ1 ρ2) :
+    (execL p ρ1).1 = (execL (lvnL p cx) ρ2).1 ∧
+    (match (execL p ρ1).2, (execL (lvnL p cx) ρ2).2 with
+     | .trap, .trap => True
+     | .brk v, .brk w => v = w
+     | .next _, .next _ => True
+     | _, _ => False) := by
+  induction p generalizing seen cx ρ1 ρ2 with
+  | nil => simp [execL, lvnL]
+  | cons st r ih =>
+    cases st with
+    | s st =>
+      simp only [wfL, Bool.and_eq_true] at hwf
+      have hs := lvnSimple_preserves [st] seen cx ρ1 ρ2 hwf.1 h
+      simp only [lvnSimple] at hs
+      simp only [lvnL, execL]
+      cases ho : lvn1 st cx with
+      | mk o cx1 =>
+        rw [ho] at hs
+        simp only at hs
+        cases o with
+        | none =>
+          simp only [execSimple] at hs
+          simp only
+          cases hr1 : execSimple [st] ρ1 with
+          | mk t1 res1 =>
+            rw [hr1] at hs
+            simp only at hs
+            cases res1 with
+            | trap => simp [ResRel] at hs
+            | brk v => simp [ResRel] at hs
+            | next ρ1' =>
+              simp only [ResRel] at hs
+              have := ih _ cx1 ρ1' ρ2 hwf.2 hs.2
+              simp only
+              rw [hs.1]; simpa using this
+        | some st' =>
+          simp only [execL]
+          cases hr1 : execSimple [st] ρ1 with
+          | mk t1 res1 =>
+            cases hr2 : execSimple [st'] ρ2 with
+            | mk t2 res2 =>
+              rw [hr1, hr2] at hs
+              simp only at hs
+              cases res1 <;> cases res2 <;> simp only [ResRel] at hs
+              · exact ⟨hs.1, trivial⟩
+              · exact hs.2.elim
+              · exact hs.2.elim
+              · exact hs.2.elim
+              · exact ⟨hs.1, hs.2⟩
+              · exact hs.2.elim
+              · exact hs.2.elim
+              · exact hs.2.elim
+              · rename_i ρ1' ρ2'
+                have := ih _ cx1 ρ1' ρ2' hwf.2 hs.2
+                simp only
+                rw [hs.1, this.1]; exact ⟨rfl, this.2⟩
+    | sif c inv body =>
+      simp only [wfL, Bool.and_eq_true] at hwf
+      obtain ⟨⟨hc, hb⟩, hr⟩ := hwf
+      have ec := rnO_eval h c (vars_all hc)
+      simp only [lvnL, execL, ec]
+      split
+      · have hs := lvnSimple_preserves body seen cx ρ1 ρ2 hb h
+        cases hr1 : execSimple body ρ1 with
+        | mk t1 res1 =>
+          cases hr2 : execSimple (lvnSimple body cx).1 ρ2 with
+          | mk t2 res2 =>
+            rw [hr1, hr2] at hs
+            simp only at hs
+            cases res1 <;> cases res2 <;> simp only [ResRel] at hs
+            · exact ⟨hs.1, trivial⟩
+            · exact hs.2.elim
+            · exact hs.2.elim
+            · exact hs.2.elim
+            · exact ⟨hs.1, hs.2⟩
+            · exact hs.2.elim
+            · exact hs.2.elim
+            · exact hs.2.elim
+            · rename_i ρ1' ρ2'
+              have f1 : ∀ v, v ∈ seen → ρ1' v = ρ1 v := fun v hv =>
+                execSimple_frame body ρ1 ρ1' (by rw [hr1]) v (fun hd => defs_not_seen body seen hb v hd hv)
+              have f2 : ∀ v, v ∈ seen → ρ2' v = ρ2 v := fun v hv =>
+                execSimple_frame _ ρ2 ρ2' (by rw [hr2]) v
+                  (fun hd => defs_not_seen body seen hb v (defs_lvnSimple body cx v hd) hv)
+              have := ih seen cx ρ1' ρ2' hr (inv_frame h f1 f2)
+              simp only
+              rw [hs.1, this.1]; exact ⟨rfl, this.2⟩
+      · exact ih seen cx ρ1 ρ2 hr h
+example : wfL [.s (.bin 2 .mul (.var 0) (.var 0)), .s (.bin 3 .gt (.var 2) (.var 1)),
+              .sif (.var 3) false [.bin 4 .mul (.var 0) (.var 0), .brk (.var 4)]] [0, 1] = true := by decide
+example : lvnL [.s (.bin 2 .mul (.var 0) (.var 0)), .s (.bin 3 .gt (.var 2) (.var 1)),
+              .sif (.var 3) false [.bin 4 .mul (.var 0) (.var 0), .brk (.var 4)]] { ren := [], avail := [] }
+        = [.s (.bin 2 .mul (.var 0) (.var 0)), .s (.bin 3 .gt (.var 2) (.var 1)), .sif (.var 3) false [.brk (.var 2)]] := by decide
+
+/-! ## 10. Common-subexpression elimination never hoists a trap above an effect -/
+
+/-- FULL STRENGTH (`cse_hoist_order`): for all branches and environments, the statements CSE places
+in front of an if/else print nothing and cannot trap, so no output of either branch can be lost or
+reordered with a trap. -/
+theorem cse_hoist_order (s1 s2 : List Simple) (fresh : Nat) (ρ : Nat → Int) :
+    (execSimple (cseHoisted (cseCommon s1 s2) fresh) ρ).1 = [] ∧
+    ∃ ρ', (execSimple (cseHoisted (cseCommon s1 s2) fresh) ρ).2 = .next ρ' := by
+  apply cseHoisted_total
+  intro k hk
+  exact keysOf_noDiv s1 k (List.mem_filter.mp hk).1
+
+/-- Historical witness (before `fix:` 934d4e6 DIV entered the set): the hoisted division traps before
+the branch has printed. -/
+theorem cse_div_hoist_counterexample :
+    (execSimple [.print (.lit 1), .bin 2 .div (.lit 7) (.var 1)] (fun _ => 0)).1 = [1] ∧
+    (execSimple ([.bin 9 .div (.lit 7) (.var 1)] ++ [.print (.lit 1), .bin 2 .div (.lit 7) (.var 1)]) (fun _ => 0)).1 = [] ∧
+    cseCommon [.print (.lit 1), .bin 2 .div (.lit 7) (.var 1)] [.print (.lit 2), .bin 3 .div (.lit 7) (.var 1)] = [] := by
+  decide
+example : cseCommon [.bin 2 .add (.var 0) (.var 1), .bin 3 .div (.var 0) (.var 1)]
+                    [.bin 4 .div (.var 0) (.var 1), .bin 5 .add (.var 0) (.var 1)] = [(.add, .var 0, .var 1)] := by decide
+
 end SamVerif.Opt
